@@ -8,6 +8,7 @@ import (
 	"os"
 	"os/exec"
 	"path/filepath"
+	"runtime"
 	"strings"
 	"sync"
 	"syscall"
@@ -169,6 +170,26 @@ func (x *Exec) reap(timeout bool) *Death {
 	return d
 }
 
+// Stretch lengthens a wall-clock bound in proportion to how oversubscribed the
+// machine is (1-minute load / CPUs, between 1 and 3): bounds are meant to be
+// two orders above normal behaviour, and "normal" slows down with the load.
+func Stretch(d time.Duration) time.Duration {
+	b, err := os.ReadFile("/proc/loadavg")
+	if err != nil {
+		return d
+	}
+	var l float64
+	fmt.Sscanf(string(b), "%f", &l)
+	f := l / float64(runtime.NumCPU())
+	if f < 1 {
+		f = 1
+	}
+	if f > 3 {
+		f = 3
+	}
+	return time.Duration(float64(d) * f)
+}
+
 // Call sends one request and waits for its answer. A child that dies or does
 // not answer in time yields a *Death error.
 func (x *Exec) Call(req *xp.Req, timeout time.Duration) (*xp.Resp, error) {
@@ -203,7 +224,7 @@ func (x *Exec) Call(req *xp.Req, timeout time.Duration) (*xp.Resp, error) {
 			return nil, fmt.Errorf("executor protocol error: %v (%q)", err, string(r.line[:min(len(r.line), 200)]))
 		}
 		return &resp, nil
-	case <-time.After(timeout):
+	case <-time.After(Stretch(timeout)):
 		x.cmd.Process.Kill()
 		<-ch
 		return nil, x.reap(true)
